@@ -231,6 +231,13 @@ class FunctionAnalysis:
             if cb is not None and 0 <= cb < 31:
                 a = self.lf(i["a"], st, depth + 1)
                 return self._fit(i, a.scale(1 << cb), st) if a is not None else None
+        if op == "phi" and getattr(st, "_from", None) is not None and i.bb.id == getattr(self, "_cur_bb", None):
+            # a value phi (`c ? a : b`) evaluated in its own block by a state that knows which predecessor it came through
+            inc = [v for b_, v in i["incoming"] if b_ == st._from]
+            if len(inc) == 1:
+                r_ = self.lf(inc[0], st, depth + 1)
+                if r_ is not None:
+                    return r_
         if op in ("and", "or", "xor", "urem", "srem", "udiv", "sdiv", "lshr", "ashr", "phi", "select", "icmp"):
             r = self.iv(o, st, allow_lf=False)
             return LF(0, {self._atom(o, op, r[0], r[1]): 1})
@@ -588,7 +595,13 @@ class FunctionAnalysis:
                 self.kill(st, lambda a: a[0] == "expr" and rules.key_mentions(a[1], lambda k: k[0] == tgt[0] and k[1] == tgt[1]))
                 return
         if not pure:
-            self.kill(st, lambda a: a[0] == "expr" or (a[0] == "cell" and a[1] == "g"))
+            # facts about the tracked scalar globals survive a call that cannot write them: a repo callee is asked (may_write), an external one
+            # cannot name a file-static / library-internal scalar whose address is never taken
+            if callee and callee in self.P.functions and self.P.functions[callee].blocks:
+                mwset = self.E.may_write(callee)
+            else:
+                mwset = set()       # external function or user callback (assumed not to touch library state)
+            self.kill(st, lambda a: a[0] == "expr" or (a[0] == "cell" and a[1] == "g" and (mwset is None or (len(a) > 2 and a[2] in mwset))))
             summ = self.E.summary(callee) if callee else None
             for g in list(self.E.global_iv):
                 if summ is not None and g in summ:
@@ -899,6 +912,7 @@ class FunctionAnalysis:
             st = st0.copy()
             st.frozen = {}
             dead = False
+            self._cur_bb = bb.id
             for inst in bb.insts:
                 self._remember(inst, st)
                 if inst.op == "store":
@@ -1048,6 +1062,12 @@ class Engine:
                 iv = None
                 for st in fa.exit_states:
                     v = st.cells.get(("g", g), self.global_iv[g])
+                    # facts may know more than the cell's own interval (a local copy of the global was tested: `n = g; if (n > 0) {...; g = 0;}`)
+                    try:
+                        v2 = fa.iv_lf(LF(0, {("cell", "g", g): 1}), st)
+                        v = (max(v[0], v2[0]), min(v[1], v2[1])) if v2[0] <= v2[1] else v
+                    except Exception:
+                        pass
                     iv = v if iv is None else hull(iv, v)
                 res[g] = iv if iv is not None else self.global_iv[g]
         self._inprog.discard(callee)
